@@ -5,7 +5,7 @@ import os
 import verifylib as V
 
 ASSUME = [
-    "index values and IDs are drawn from {x,y} and {a,ab,b,.,..}: byte order of the real keys equals segment-wise order for these (checked per run by the raw key dump comparison); values containing '/' or bytes below '/' are not explored",
+    "index values and IDs are drawn from {x,y} (unique secondary index: id+a, empty for one object) and {\"\",a,ab,b,.,..}: byte order of the real keys equals segment-wise order for these (checked per run by the raw key dump comparison); values containing '/' or bytes below '/' are not explored",
     "a history's state is carried only by the Bolt file: tree edges restore the file content of the parent node and reopen the store (IndexedStore keeps no state in memory); random histories run on one open handle as a cross-check",
     "injected failures are errors returned by tx.Put/tx.Delete (k-th write of a transaction) or by tx.Commit; process crashes inside a Bolt commit are Bolt's own guarantee and are not exercised",
     "path.Match is trusted; the specification's match table is compared with the table Go computes in every run",
@@ -16,32 +16,56 @@ SPEC = "IndexedStore"
 
 
 def _minimal_segment(fp, line_no):
-    """Reset + the chain of operations that produced the pre-state of the offending line + that line."""
+    """Reset + the chain of operations / transactions that produced the pre-state of the offending line + that
+    line (with the lines of its own transaction, if it is inside one)."""
     lines = open(fp).read().splitlines()
     if line_no is None or line_no > len(lines):
         return V.segment_of(fp, line_no)
     try:
-        cur = json.loads(lines[line_no - 1])
-        if cur.get("ev") == "Reset":
-            return [lines[line_no - 1]], []
-        cur["full"] = cur.get("full") or []
-        need = cur.get("pre", cur.get("at"))
-        chain = [lines[line_no - 1]]
-        i = line_no - 2
+        evs = {}
+
+        def ev(i):
+            if i not in evs:
+                evs[i] = json.loads(lines[i])
+            return evs[i]
+
+        def tx_start(i):      # index of the TxBegin line of the transaction line i belongs to
+            while ev(i).get("ev") != "TxBegin":
+                i -= 1
+            return i
+
+        last = line_no - 1
+        if ev(last).get("ev") == "Reset":
+            return [lines[last]], []
+        chain = []            # list of (start, end) index ranges, newest first
+        if ev(last).get("ev") in ("TxOp", "TxEnd", "TxBegin"):
+            b = tx_start(last)
+            chain.append((b, last))
+            need, i = ev(b)["pre"], b - 1
+        else:
+            chain.append((last, last))
+            need, i = ev(last).get("pre", ev(last).get("at")), last - 1
         reset = None
         while i >= 0:
             if lines[i].startswith('{"ev":"Reset"'):
-                reset = lines[i]
+                reset = i
                 break
-            ev = json.loads(lines[i])
-            if ev.get("ev") == "Op" and ev.get("post") == need:
-                chain.append(lines[i])
-                need = ev["pre"]
+            e = ev(i)
+            if e.get("ev") == "Op" and e.get("post") == need:
+                chain.append((i, i))
+                need = e["pre"]
+            elif e.get("ev") == "TxEnd" and e.get("post") == need:
+                b = tx_start(i)
+                chain.append((b, i))
+                need = ev(b)["pre"]
+                i = b
             i -= 1
         if reset is None:
             return V.segment_of(fp, line_no)
-        # renumber is unnecessary: slots are absolute and the chain fills them in order
-        return [reset] + chain[::-1], []
+        seg = [lines[reset]]
+        for a, b in chain[::-1]:
+            seg += lines[a:b + 1]
+        return seg, []
     except Exception:
         return V.segment_of(fp, line_no)
 
@@ -60,8 +84,18 @@ def _handle(R, val, what):
                           extra="segment.ndjson is minimised: the Reset line, the chain of operations leading to the pre-state, and the rejected line (last).")
         last = json.loads(seg[-1]) if seg else {}
         brief = {k: last.get(k) for k in ("op", "id", "a", "v", "failAt", "fired", "res", "pre", "post")}
-        hist = [(json.loads(x).get("op"), json.loads(x).get("id"), json.loads(x).get("a"), json.loads(x).get("res")) for x in seg[1:]]
-        R.violations.append(("%s: history %s, rejected line %s" % (what, hist, brief), d))
+        hist = []
+        for x in seg[1:]:
+            e = json.loads(x)
+            if e.get("ev") == "TxBegin":
+                hist.append("tx[")
+            elif e.get("ev") == "TxEnd":
+                hist.append("]%s=%s" % ("abort" if e.get("abort") else "", e.get("res")))
+            else:
+                hist.append("%s(%s,%s)=%s" % (e.get("op"), e.get("id"), e.get("a"), e.get("res")))
+        brief = {k: v for k, v in brief.items() if v is not None}
+        brief["ev"] = last.get("ev")
+        R.violations.append(("%s: history %s, rejected line %s" % (what, " ".join(hist), brief), d))
 
 
 def _validate(sc, files, cfg, tier="quick"):
@@ -105,8 +139,12 @@ def _expect_counterexample(sc, R, cfg, inv):
 def run(sc, tier, seed):
     R = V.Result("C15", tier, seed)
     # design level: Impl => Ref and the invariants over every reachable store content
-    cfg = "IndexedStore_quick.cfg" if tier == "quick" else "IndexedStore_thorough.cfg"
-    R.add_model(V.model_check(sc, SPEC, "IndexedStoreMC.tla", cfg, workers=8, timeout=1500))
+    # (single-operation transactions over more IDs / payloads; multi-operation transactions - MaxTxOps 2 and 3 -
+    # over fewer, with TxSeesOwnWrites evaluated between the operations of a transaction)
+    cfgs = (["IndexedStore_quick.cfg", "IndexedStore_tx_quick.cfg"] if tier == "quick" else
+            ["IndexedStore_thorough.cfg", "IndexedStore_ids5_thorough.cfg", "IndexedStore_tx_thorough.cfg", "IndexedStore_tx3_thorough.cfg"])
+    for cfg in cfgs:
+        R.add_model(V.model_check(sc, SPEC, "IndexedStoreMC.tla", cfg, workers=8, timeout=1500))
     # the same model with the two pre-fix code variants must violate the invariants (non-vacuity)
     pinned = {
         "path.Join index keys (JoinCollapse)": _expect_counterexample(sc, R, "IndexedStore_pinned_join.cfg", "Bijection"),
